@@ -28,9 +28,12 @@ Definition ex_seal (K N s : bytes) : bytes := toy_encs (K ++ N) s ++ zeros 12.
 Definition ex_open (K N c : bytes) : option bytes :=
   if length c <? 16 then None else
   if beq (skipn (length c - 12) c) (zeros 12) then toy_decs (K ++ N) (firstn (length c - 12) c) else None.
-Definition ex_ctr (K iv x : bytes) : bytes := x.
-(* a MAC without any authenticity: constant *)
-Definition ex_hmac (h : hash) (K m : bytes) : bytes := zeros (digest_size h).
+(* "AES-CTR": xor with a byte that depends on key and IV *)
+Definition ex_ctr (K iv x : bytes) : bytes := map (fun b => N.lxor b (toy_kb (K ++ iv))) x.
+(* "HMAC": FNV checksum over key || message, padded to the digest size *)
+Definition ex_hmac (h : hash) (K m : bytes) : bytes := be_bytes 4 (toy_sum (K ++ m)) ++ zeros (digest_size h - 4).
+(* a MAC without any authenticity (constant), only for the example showing that the forgery event is real *)
+Definition bad_hmac (h : hash) (K m : bytes) : bytes := zeros (digest_size h).
 
 (* the correctness laws of C07_key_roundtrip / C07_keyset_roundtrip *)
 Lemma ex_laws :
@@ -42,7 +45,9 @@ Lemma ex_laws :
 Proof.
   assert (L : forall k n p, length (ex_seal k n p) = length p + 16).
   { intros. unfold ex_seal. rewrite app_length, toy_len, zeros_length. lia. }
-  split; [exact L|]. split; [|repeat split; intros; apply zeros_length].
+  split; [exact L|]. split.
+  2:{ split; [intros; apply map_length|]. split; [intros; apply map_lxor_invol|].
+      intros h k m. unfold ex_hmac. rewrite app_length, be_bytes_length, zeros_length. destruct h; cbn; lia. }
   intros k n p. unfold ex_open. rewrite L. destruct (Nat.ltb_spec (length p + 16) 16); [lia|].
   unfold ex_seal.
   assert (E : length p + 16 - 12 = length (toy_encs (k ++ n) p)) by (rewrite toy_len; lia).
@@ -156,23 +161,85 @@ Example ex_runs :
   map (fun ac => ex_read (fst ac) (snd ac) ex_sz) ex_tampered.
 Proof. vm_compute. repeat split; reflexivity. Qed.
 
+(* ------------------------------------------------------------------ *)
+(* the same for an AES-CTR-HMAC key (tag 16 of SHA-256), same primitives *)
+(* ------------------------------------------------------------------ *)
+Definition ex_kh : skey := CtrHmac ex_mk SHA256 16 SHA256 16 44 0.
+Definition ex_cth : bytes := key_ciphertext ex_hkdf ex_seal ex_ctr ex_hmac ex_kh ex_salt ex_prefix ex_aad ex_p.
+Definition ex_tampered_h : list (bytes * bytes) :=
+  [ (ex_aad, flip 0 ex_cth); (ex_aad, flip 1 ex_cth); (ex_aad, flip 16 ex_cth); (ex_aad, flip 17 ex_cth);
+    (ex_aad, flip 23 ex_cth); (ex_aad, flip 24 ex_cth); (ex_aad, flip 28 ex_cth); (ex_aad, flip 43 ex_cth);
+    (ex_aad, flip 61 ex_cth);
+    (ex_aad, firstn 23 ex_cth); (ex_aad, firstn 44 ex_cth); (ex_aad, ex_cth ++ [0%N]);
+    ([5; 7]%N, ex_cth); ([], ex_cth) ].
+Definition ex_readh (aad' c' : bytes) (sizes : list nat) :=
+  key_read ex_hkdf ex_open ex_ctr ex_hmac src read_full ex_kh aad' (mkSrc c' None) sizes.
+
+Lemma ex_own_h : own_segments_decrypt ex_hkdf ex_seal ex_open ex_ctr ex_hmac ex_kh ex_salt ex_prefix ex_aad ex_p.
+Proof.
+  destruct ex_laws as (L1 & L2 & L3 & L4 & L5).
+  intros i _. exact (seg_dec_enc ex_seal ex_open ex_ctr ex_hmac L1 L2 L4 L5 ex_kh _ _ _ eq_refl).
+Qed.
+
+Lemma ex_no_forgery_h a c : In (a, c) ((ex_aad, ex_cth) :: ex_tampered_h) ->
+  no_forgery_b ex_kh ex_salt ex_prefix ex_aad ex_p c a ex_sz = true.
+Proof.
+  intros Hin.
+  repeat (destruct Hin as [E|Hin]; [inversion E; subst a c; vm_compute; reflexivity|]).
+  destruct Hin.
+Qed.
+
+(* no session key of these runs shares only the HMAC half with the writer's *)
+Lemma ex_no_partial_h a c : In (a, c) ((ex_aad, ex_cth) :: ex_tampered_h) ->
+  let sk' := derive ex_hkdf ex_kh (salt_field ex_kh c) a in
+  ~ (snd sk' = snd (derive ex_hkdf ex_kh ex_salt ex_aad) /\ fst sk' <> fst (derive ex_hkdf ex_kh ex_salt ex_aad)).
+Proof.
+  intros Hin sk' (E1 & E2). apply E2. clear E2. revert E1. unfold sk'. clear sk'.
+  repeat (destruct Hin as [E|Hin]; [inversion E; subst a c; vm_compute; intros H; try reflexivity; try discriminate H|]).
+  destruct Hin.
+Qed.
+
+Lemma ex_no_hmac_forgery_h a c : In (a, c) ((ex_aad, ex_cth) :: ex_tampered_h) ->
+  let sk' := derive ex_hkdf ex_kh (salt_field ex_kh c) a in
+  ~ exists N c0, In (N, c0) (key_presented ex_hkdf ex_open ex_ctr ex_hmac ex_kh a (mkSrc c None) ex_sz) /\
+                 hmac_forgery ex_hkdf ex_ctr ex_hmac ex_mk SHA256 16 SHA256 16 44 0 ex_salt ex_prefix ex_aad ex_p
+                              (snd sk') (N ++ firstn (length c0 - 16) c0) (skipn (length c0 - 16) c0).
+Proof.
+  intros Hin sk' (N & c0 & Hp & Hf).
+  destruct (hmac_forgery_is_seg_forgery ex_hkdf ex_seal ex_open ex_ctr ex_hmac ex_mk SHA256 16 SHA256 16 44 0
+              ex_salt ex_prefix ex_aad ex_p eq_refl eq_refl (proj2 (proj2 (proj2 (proj2 ex_laws)))) sk' N c0 Hf)
+    as ((s & Hd) & Hnw).
+  apply Hnw. apply (no_forgery_b_sound ex_kh ex_salt ex_prefix ex_aad ex_p c a ex_sz (ex_no_forgery_h a c Hin) N c0 Hp).
+  fold ex_kh in Hd. unfold sk' in Hd. rewrite Hd. discriminate.
+Qed.
+
+Example ex_runs_h :
+  ex_readh ex_aad ex_cth ex_sz = (ex_p, AtEof) /\
+  map (fun ac => ex_readh (fst ac) (snd ac) ex_sz) ex_tampered_h =
+    [([], Failed); ([], Failed); ([], Failed); ([], Failed); ([], Failed);
+     ([], Failed); ([], Failed); ([], Failed);             (* body, first and last tag byte of segment 0 *)
+     ([1; 2; 3; 4]%N, Failed);
+     ([], Failed); ([], Failed); ([1; 2; 3; 4]%N, Failed); ([], Failed); ([], Failed)].
+Proof. vm_compute. split; reflexivity. Qed.
+
 (* THE FORGERY EVENT IS REAL.  AES-CTR-HMAC with the constant MAC: a segment whose
    body was altered is accepted, wrong bytes are delivered and the stream ends in
    a clean EOF; the altered (nonce, segment) pair is presented, decrypts, was never
    written, and its tag is a valid "HMAC" of a message the writer never authenticated *)
-Definition ex_kh : skey := CtrHmac ex_mk SHA256 16 SHA256 16 44 0.
-Definition ex_cth : bytes := key_ciphertext ex_hkdf ex_seal ex_ctr ex_hmac ex_kh ex_salt ex_prefix ex_aad ex_p.
+Definition bad_cth : bytes := key_ciphertext ex_hkdf ex_seal ex_ctr bad_hmac ex_kh ex_salt ex_prefix ex_aad ex_p.
 Example ex_forgery_event_is_real :
-  let c' := flip 24 ex_cth in
+  let c' := flip 24 bad_cth in
   let N0 := nonce_i ex_kh ex_prefix ex_p 0 in
   let c0 := firstn 20 (skipn 24 c') in
-  key_read ex_hkdf ex_open ex_ctr ex_hmac src read_full ex_kh ex_aad (mkSrc c' None) ex_sz =
+  let sk := derive ex_hkdf ex_kh ex_salt ex_aad in
+  key_read ex_hkdf ex_open ex_ctr bad_hmac src read_full ex_kh ex_aad (mkSrc c' None) ex_sz =
     ([0; 2; 3; 4; 5; 6]%N, AtEof) /\
-  In (N0, c0) (key_presented ex_hkdf ex_open ex_ctr ex_hmac ex_kh ex_aad (mkSrc c' None) ex_sz) /\
-  seg_dec ex_open ex_ctr ex_hmac ex_kh (derive ex_hkdf ex_kh ex_salt ex_aad) N0 c0 = Some [0; 2; 3; 4]%N /\
-  written_b ex_kh ex_salt ex_prefix ex_aad ex_p (derive ex_hkdf ex_kh ex_salt ex_aad) N0 c0 = false /\
-  skipn 4 c0 = firstn 16 (ex_hmac SHA256 (snd (derive ex_hkdf ex_kh ex_salt ex_aad)) (N0 ++ firstn 4 c0)).
-Proof. vm_compute. repeat split; try reflexivity. left. reflexivity. Qed.
+  In (N0, c0) (key_presented ex_hkdf ex_open ex_ctr bad_hmac ex_kh ex_aad (mkSrc c' None) ex_sz) /\
+  seg_dec ex_open ex_ctr bad_hmac ex_kh sk N0 c0 = Some [0; 2; 3; 4]%N /\
+  c0 <> seg_enc ex_seal ex_ctr bad_hmac ex_kh sk N0 [1; 2; 3; 4]%N /\
+  skipn 4 c0 = firstn 16 (bad_hmac SHA256 (snd sk) (N0 ++ firstn 4 c0)) /\
+  firstn 4 c0 <> ex_ctr (fst sk) N0 [1; 2; 3; 4]%N.
+Proof. vm_compute. repeat split; try reflexivity; try discriminate. left. reflexivity. Qed.
 
 (* a source that delivers 1, 2, 3, 1, 2, 3, ... bytes per call and returns io.EOF
    together with the last bytes: same outcome (instance of key_read_short_reads) *)
@@ -192,3 +259,22 @@ Example ex_constructor_faults :
     (None, mkSink (firstn 23 ex_ct) (Some 23)) /\
   fst (new_enc_writer ex_hkdf ex_k (ex_salt ++ ex_prefix) ex_aad (mkSink [] (Some 24))) <> None.
 Proof. vm_compute. repeat split; discriminate. Qed.
+
+(* why the keyset theorem asks for other key MATERIAL, not another record: the
+   record k45 = k with segment size 45 is not k, yet on the honest one-segment
+   stream of k it accepts the first segment it reads - the writer's own segment,
+   under the writer's session key: no forgery *)
+Definition ex_k45 : skey := GcmHkdf ex_mk SHA256 16 45 0.
+Definition ex_p1 : bytes := [1; 2; 3]%N.
+Definition ex_ct1 : bytes := key_ciphertext ex_hkdf ex_seal ex_ctr ex_hmac ex_k ex_salt ex_prefix ex_aad ex_p1.
+Example ex_same_material_record_accepts :
+  ex_k45 <> ex_k /\ k_main ex_k45 = k_main ex_k /\
+  first_accept ex_hkdf ex_open ex_ctr ex_hmac ex_k45 ex_aad (mkSrc ex_ct1 None) /\
+  derive ex_hkdf ex_k45 ex_salt ex_aad = derive ex_hkdf ex_k ex_salt ex_aad /\
+  written_b ex_k ex_salt ex_prefix ex_aad ex_p1 (derive ex_hkdf ex_k45 ex_salt ex_aad)
+            (nonce_i ex_k ex_prefix ex_p1 0) (skipn 24 ex_ct1) = true /\
+  key_read ex_hkdf ex_open ex_ctr ex_hmac src read_full ex_k45 ex_aad (mkSrc ex_ct1 None) ex_sz = (ex_p1, AtEof).
+Proof.
+  split; [discriminate|]. split; [reflexivity|]. split; [unfold first_accept; vm_compute; discriminate|].
+  vm_compute. repeat split; reflexivity.
+Qed.
